@@ -215,11 +215,21 @@ def attach (o : Oracle) (t : DTree) (parent : Option Nat) (e : Edge) (g : Game) 
   | some h, some m => some (t.push ⟨parent, e, g, h, o.abs (t'.sweat i), m, 0, 0⟩)
   | _, _ => none
 
+/-- the branch along one menu edge: `(edge, game.apply(game.actionize(edge)))`; `none` = the
+    assertion in `apply` fails -/
+def branchOf (o : Oracle) (g : Game) (i : Nat) (e : Edge) : Option Branch :=
+  (RP.Game.step? g (actionize g (o.deal g) e)).map fun g' => ({ game := g', edge := e, parent := i } : Branch)
+
+/-- all-or-nothing map (a panic in any branch aborts the run) -/
+def allSome {α β : Type} (f : α → Option β) : List α → Option (List β)
+  | [] => some []
+  | a :: as => match f a, allSome f as with
+    | some b, some bs => some (b :: bs)
+    | _, _ => none
+
 /-- `Node::branches`: every menu edge with the state it leads to (`apply` asserts `is_allowed`) -/
 def branches (o : Oracle) (t : DTree) (i : Nat) : Option (List Branch) :=
-  (t.menuOf i).mapM fun e =>
-    (RP.Game.step? (t.game i) (actionize (t.game i) (o.deal (t.game i)) e)).map
-      fun g => ({ game := g, edge := e, parent := i } : Branch)
+  allSome (branchOf o (t.game i) i) (t.menuOf i)
 
 /-- `Blueprint::sample`: all branches at the traverser, one elsewhere -/
 def sample (o : Oracle) (t : DTree) (i : Nat) : Option (List Branch) :=
